@@ -41,7 +41,7 @@ struct NodeRt {
     directive: Arc<parking_lot::Mutex<Directive>>,
     gate: Arc<tokio::sync::Notify>,
     reached: Arc<std::sync::atomic::AtomicBool>,
-    trackers: Vec<Tracker>,
+    tracker: Tracker,      // the poller's keyspace tracker of this node (per-peer entries inside)
     _server: Server,
 }
 
@@ -95,7 +95,7 @@ async fn make_node(id: u8, n: usize) -> NodeRt {
     let (addr, server) = crate::rpc::listen_free().await;
     server.add_service(ConsistencyService::new(group.clone(), network.clone()));
     server.add_service(ReplicationService::new(group.clone()));
-    NodeRt { id, addr, clock, group, network, directive, gate, reached, trackers: (0..n).map(|_| Tracker::default()).collect(), _server: server }
+    NodeRt { id, addr, clock, group, network, directive, gate, reached, tracker: Tracker::default(), _server: server }
 }
 
 fn fmt_pairs(mut v: Vec<(u64, HLCTimestamp)>) -> String {
@@ -400,7 +400,7 @@ impl Domain for ClusterDomain {
                 let network = self.nodes[j].network.clone();
                 let concurrent = t[0] == "repairc";
                 let rf = t.get(3).map(|x| *x == "1").unwrap_or(true);
-                let tracker = &mut self.nodes[j].trackers[i];
+                let tracker = &mut self.nodes[j].tracker;
                 let r = rt.block_on(async {
                     if concurrent {
                         tmo(verif::repair_peer_concurrent(group, network, tracker, peer_id, peer_addr)).await
@@ -421,6 +421,17 @@ impl Domain for ClusterDomain {
                         }
                     },
                 }
+            },
+            "repairm" => {
+                // repairm <j>: one round of the PRODUCTION loop of node j's poller (`repair_members`) over all other nodes as its live
+                // members: per peer poll, diff, both halves concurrently, tracker update on success, errors logged and skipped
+                let j = u(1);
+                let live: std::collections::BTreeMap<u8, SocketAddr> = self.nodes.iter().enumerate().filter(|(i, _)| *i != j).map(|(_, n)| (n.id, n.addr)).collect();
+                let group = self.nodes[j].group.clone();
+                let network = self.nodes[j].network.clone();
+                let tracker = &mut self.nodes[j].tracker;
+                let r = rt.block_on(async { tokio::time::timeout(Duration::from_secs(30), verif::repair_members_once(group, network, tracker, &live)).await });
+                if r.is_ok() { "ok".into() } else { "timeout".into() }
             },
             "purge" => {
                 let j = u(1);
